@@ -123,8 +123,9 @@ Proof. split; [exact ex_ltr_forward | exact ex_rtl_forward]. Qed.
    [forward] follows from C04's length analysis (shape_ok rtl root: a direction-rtl tree ends at or after /
    before its start, inside the text), C08's group-0-is-the-match-span (no_group0 body) and, for the
    interpreter, C01_compile_correct2_exec_partial.
-   Residual hypotheses.  Reference level: none beyond shape_ok / no_group0 (both checked on exported trees by
-   legs c04-analysis / c08).  Interpreter level: those of C01_compile_correct2_exec_partial on the program, and
+   Residual hypotheses.  Reference level: none beyond shape_ok (recomputed on every exported tree by leg
+   c04-analysis) and no_group0 (no node of the body captures into or balances group 0: the parser reserves
+   group 0 for the root capture).  Interpreter level: those of C01_compile_correct2_exec_partial on the program, and
    "Spec.attempt terminates within the engine's counter range at every in-range position, for every \G"
    (last hypothesis).  Not claimed: that an execute() call returns (a call that runs out of fuel or hits the
    stack limit is read as "no match at this position" by cx_vm_matcher). *)
@@ -215,3 +216,25 @@ Print Assumptions C07_next_advances_for_compiled_programs.
 (* non-vacuity: the a^n b^n program with balancing groups on "aabb": shape_ok, no_group0 and the termination
    hypothesis hold, and iterating either matcher from 0 yields the single match [0,4) *)
 Example C07_compiled_witness := cx_iter_demo.
+
+(* ... and C07_fresh_search_is_starting_at with [no_G] discharged: Spec.sem reads the scan start only through
+   a \G anchor (C02_attempt_does_not_read_start), so for a tree without \G ([ce_no_start], equivalently a
+   program without a Start opcode: C02_has_opcode_start_is_tree_has_start_anchor) FindNextMatch's independent
+   search is FindRunesMatchStartingAt at the reference level.  (At the interpreter level no_G is not proved:
+   compile_correct says what execute() returns WHEN it returns, not that returning is independent of \G.) *)
+From Verif Require Import Proofs.ComposeEntry Proofs.ComposeIter.
+
+Theorem C07_spec_matcher_ignores_start :
+  forall (e : env) (fuel : nat) (root : node),
+    ce_no_start root = true -> no_G (cx_spec_matcher e fuel root).
+Proof. exact cit_spec_matcher_no_G. Qed.
+Print Assumptions C07_spec_matcher_ignores_start.
+
+Theorem C07_fresh_search_is_starting_at_for_spec_search :
+  forall (e : env) (fuel : nat) (root : node) (rtl : bool),
+    ce_no_start root = true ->
+    forall lfuel ts pos, 0 <= pos ->
+      Iter.search_from rtl (tlen e) (cx_spec_matcher e fuel root) lfuel ts pos =
+      Iter.find_runes_match_starting_at rtl (tlen e) (cx_spec_matcher e fuel root) lfuel pos.
+Proof. exact cit_fresh_search_is_starting_at. Qed.
+Print Assumptions C07_fresh_search_is_starting_at_for_spec_search.
